@@ -219,7 +219,12 @@ func TestC20_FirstUse(t *testing.T) {
 		b.Evals++
 		b.Distinct++
 		b.Nontrivial++
-		if err != nil || bytes.Contains(out, []byte("C20-FIRST-USE-FAILED")) {
+		if err != nil && !bytes.Contains(out, []byte("C20-FIRST-USE-FAILED")) {
+			// the child could not run (resources, signals): inconclusive for this child, never a violation
+			b.Labels["child_could_not_run"]++
+			continue
+		}
+		if bytes.Contains(out, []byte("C20-FIRST-USE-FAILED")) {
 			msg := string(out)
 			if len(msg) > 600 {
 				msg = msg[:600]
